@@ -7,11 +7,15 @@ import Dhcp.Driver.ClientLTS
   `client4|client6 T=<ns> n=<int> cap=<k> m=<tag|nil> H=<ns> ev=<t>:<kind>:<s|n>,…`
       one SendAndRead call under virtual time (Dhcp.Client.Timed.runCall).
       kinds: acc rej (same xid, matcher accepts / rejects; with m=nil both are
-      accepted), ix ig io ih ie (wrong xid, garbage, wrong op, wrong hwaddr,
-      empty: all dropped by the receive loop), can (ctx cancelled), cdl (the
+      accepted), ix ig io ih ih0 ih3 ih5 ihx ie (wrong xid, garbage, wrong op,
+      other hwaddr / empty / 3- and 5-byte prefix / extension of the client's
+      hwaddr, empty datagram: all dropped by the receive loop), can (ctx cancelled), cdl (the
       context was created with its deadline at this instant: ctx.Err() is
       context.DeadlineExceeded; first event of its instant), clo (Close).
-      `s` = applied after quiescence, `n` = applied right away.
+      `s` = applied after quiescence, `n` = applied right away, `w` = handed over
+      by the peer from inside the WriteTo made at that instant.
+      optional `cerr=<1|2>`: the conn's Close reports an error (1: but closes,
+      2: and stays open - then Close cannot return).
       Output: `ok <alt> | <alt> | …`, every result the model allows, each
       `tx=<t,…|-> ret=<t>:<resp<i>|noresp|ctx>|running close=<t|->`.
 
@@ -30,7 +34,7 @@ open Dhcp.Client
 def parseEvKind (matchNil : Bool) : String → Option Timed.EvKind
   | "acc" => some .acc
   | "rej" => some (if matchNil then .acc else .rej)
-  | "ix" | "ig" | "io" | "ih" | "ie" => some .irr
+  | "ix" | "ig" | "io" | "ih" | "ih0" | "ih3" | "ih5" | "ihx" | "ie" => some .irr
   | "can" | "cdl" => some .cancel
   | "clo" => some .close
   | _ => none
@@ -40,7 +44,9 @@ def parseEvent (matchNil : Bool) (s : String) : Option Timed.Event :=
   | [t, ks, f] => do
     let t ← t.toInt?
     let k ← parseEvKind matchNil ks
-    let sync ← (if f == "s" then some true else if f == "n" then some false else none)
+    -- `w`: handed to the receive loop from inside the WriteTo made at this (transmission)
+    -- instant, which returns only after the loop has dealt with it: like `s`
+    let sync ← (if f == "s" || f == "w" then some true else if f == "n" then some false else none)
     -- `cdl`: the context's own deadline timer fires when the clock reaches `t`, concurrently with
     -- a per-try deadline on the same instant whatever the script does: always racing
     pure { t := t, kind := k, sync := sync && ks != "cdl" }
@@ -74,7 +80,9 @@ def stepTimed (args : List String) : Option String := do
   let m ← f "m"
   let evs ← parseEvents (m == "nil") (← f "ev")
   let rs := Timed.runCall T n evs H
-  let cl := (Timed.closeTime evs).bind (fun t => if t ≤ H then some t else none)
+  -- cerr=2: the conn's Close fails and leaves the conn open: the receive loop cannot end, Close waits
+  let cl := if f "cerr" == some "2" then none
+            else (Timed.closeTime evs).bind (fun t => if t ≤ H then some t else none)
   pure ("ok " ++ " | ".intercalate (rs.map (showResult cl)))
 
 def stepHistory (args : List String) : Option String := do
